@@ -93,7 +93,8 @@ func newC38Rig(t *testing.T) *c38Rig {
 	return r
 }
 
-func (r *c38Rig) Name() string { return "tbtc" }
+func (r *c38Rig) Marker() string { return "keep-core/pkg/tbtc." }
+func (r *c38Rig) Name() string   { return "tbtc" }
 
 func (r *c38Rig) Start(h persistence.ProtectedHandle) error {
 	reg, err := newWalletRegistry(h, r.chain.CalculateWalletID)
